@@ -2,6 +2,7 @@ import Driver.Util
 import Paroxy.Model.FlatAst
 import Paroxy.Spec.FlatAst
 import Paroxy.Spec.FlatTweaks
+import Paroxy.Spec.FlatDump
 open Lean Paroxy.Flat
 
 namespace Driver.C15
@@ -107,7 +108,34 @@ def pass : Handler := fun j => do
     | n => throw s!"unknown pass {n}"
   pure (Json.mkObj [("lines", linesJson (f ls))])
 
+/-- `c15.wf_dump`: the hypothesis of `C15_dump_injective` / `C15_hash_iff` on a tree (with the offending name or
+terminal repr when it fails), and, over all pairs of its first `cap` expression nodes, the agreement of "same hashed
+text" with `sameExpr` (proved: `C15_dump_iff`) and of `sameExpr` with `sameUpToCtx` (real trees only). -/
+def wfDumpOp : Handler := fun j => do
+  let t ← getTree j
+  let cap := match j.getObjValAs? Nat "cap" with
+    | .ok n => n
+    | _ => 120
+  let es := (exprNodes t).take cap
+  let st := pairStats es
+  pure (Json.mkObj [("wf_dump", Json.bool (wfDump t)), ("conforms", Json.bool (conforms (schemaOf t) t)),
+    ("schema_types", Json.num ((schemaOf t).length : Nat)),
+    ("witness", match wfDumpWitness t with
+      | some w => Json.str (String.ofList w)
+      | none => Json.null),
+    ("exprs", Json.num (es.length : Nat)), ("pairs_same_text", Json.num (st.1 : Nat)),
+    ("pairs_text_vs_sameExpr", Json.num (st.2.1 : Nat)), ("pairs_sameExpr_vs_sameUpToCtx", Json.num (st.2.2 : Nat))])
+
+/-- `c15.same_expr`: the two relations and the two dump texts for a pair of trees. -/
+def sameExprOp : Handler := fun j => do
+  let a ← parseVal (← j.getObjVal? "a")
+  let b ← parseVal (← j.getObjVal? "b")
+  pure (Json.mkObj [("same_expr", Json.bool (sameExpr a b)), ("same_up_to_ctx", Json.bool (sameUpToCtx a b)),
+    ("wf_a", Json.bool (wfDump a)), ("wf_b", Json.bool (wfDump b)),
+    ("dump_a", Json.str (String.ofList (dumpNoCtx a))), ("dump_b", Json.str (String.ofList (dumpNoCtx b)))])
+
 def handlers : List (String × Handler) :=
-  [("c15.flatten", flatten), ("c15.dump", dump), ("c15.spec", spec), ("c15.seq", seq), ("c15.pass", pass)]
+  [("c15.flatten", flatten), ("c15.dump", dump), ("c15.spec", spec), ("c15.seq", seq), ("c15.pass", pass),
+   ("c15.wf_dump", wfDumpOp), ("c15.same_expr", sameExprOp)]
 
 end Driver.C15
